@@ -37,7 +37,7 @@ class CliCase:
             out.append(f"STDIN {hx(self.stdin)}")
         else:
             for n, c in self.files:
-                out.append(f"FILE {n.encode().hex()} {hx(c)}")
+                out.append(f"FILE {os.fsencode(n).hex()} {hx(c)}")
         out.append("END")
         return "\n".join(out) + "\n"
 
@@ -86,7 +86,7 @@ def parse_cli_cases(path):
             cur.stdin = unhex(p[1])
             cur.via_stdin = True
         elif p[0] == "FILE":
-            cur.files.append((bytes.fromhex(p[1]).decode(), unhex(p[2])))
+            cur.files.append((os.fsdecode(bytes.fromhex(p[1])), unhex(p[2])))
         elif p[0] == "END":
             cases.append(cur)
             cur = None
@@ -150,6 +150,9 @@ def gen_cases(seed, tier):
         body = b"ab\nxbcx\n" + b + b"\nabc\nzz\n"
         cases.append(CliCase(f"clir{k}", fl.replace("h", ""), None, b"ab\nbc", body, [], True)); k += 1
         cases.append(CliCase(f"clir{k}", fl, None, b"ab\nbc", b"", [("in0.txt", body), ("in1.txt", b"bcd\n" + b)], False)); k += 1
+    # a FILE name that is not UTF-8: opened all the same, its name is not printed
+    for fl in ("", "n", "cn", "h"):
+        cases.append(CliCase(f"clir{k}", fl, None, b"ab\nbc", b"", [("in\udcff.txt", b"ab\nzz\nxbc\n"), ("ok.txt", b"bc\n"), ("\udce3\udc81", b"ab\n\xff\nab\n")], False)); k += 1
     cases.append(CliCase(f"clir{k}", "", b"ab\n\xff\nbc\n", None, b"ab\n", [], True)); k += 1
     cases.append(CliCase(f"clir{k}", "n", b"ab\nbc\n", b"zz", b"\xc3\nab\n", [], True)); k += 1
     while len(cases) < n:
